@@ -231,14 +231,16 @@ Record state := mkS {
   run : option (resp * nat);   (* read loop: holds rchan of that thread, about to send *)
   down : bool;                 (* the underlying connection has returned an error from Write (it keeps doing so) *)
   torn : bytes;                (* ghost: what the failed Write had put on the connection beyond the complete frames *)
-  senders : list nat           (* ghost: the threads whose frame is complete, in lock order *)
+  senders : list nat;          (* ghost: the threads whose frame is complete, in lock order *)
+  closed : bool                (* run() has returned: stream.Read gave an error (end of stream, the peer hung up,
+                                  a broken frame) and c.done is closed; nothing is read any more *)
 }.
 
 Definition dead : thread := mkT KWrite PDone 0 [] None false None.
 Definition mk_thread (kp : kind * bytes) : thread :=
   mkT (fst kp) (match fst kp with KCall => PStart | KWrite => PReady end) 0 (snd kp) None false None.
 Definition init (prog : list (kind * bytes)) : state :=
-  mkS (fun t => nth t (map mk_thread prog) dead) [] None [] [] 0 None false [] [].
+  mkS (fun t => nth t (map mk_thread prog) dead) [] None [] [] 0 None false [] [] false.
 
 Definition upd (f : nat -> thread) (t : nat) (v : thread) : nat -> thread :=
   fun x => if Nat.eqb x t then v else f x.
@@ -268,10 +270,15 @@ Inductive action :=
 | ACancel (t : nat)        (* Call: case <-ctx.Done() *)
 | ACleanup (t : nat)       (* Call: deferred delete(c.pending, id); return *)
 | ARead (r : resp)         (* run: a *Response read from the stream; rchan, ok := c.pending[msg.id] *)
-| ASend.                   (* run: rchan <- msg   (blocks while the channel is full) *)
+| ASend                    (* run: rchan <- msg   (blocks while the channel is full) *)
+| AEof.                    (* run: stream.Read returns an error - the peer hung up (io.EOF), the stream was closed, a
+                              frame was cut or malformed -; c.fail(err) (which closes the stream); return; the deferred
+                              close(c.done).  At ANY moment at which the loop is about to read: before, between and
+                              after the responses.  Call does not look at c.done: a call whose response is in its
+                              channel still takes it, a call without one waits for its context *)
 
 Definition with_threads (s : state) (f : nat -> thread) : state :=
-  mkS f (pending s) (lock s) (wire s) (sent s) (next_id s) (run s) (down s) (torn s) (senders s).
+  mkS f (pending s) (lock s) (wire s) (sent s) (next_id s) (run s) (down s) (torn s) (senders s) (closed s).
 
 Definition is_pc (p q : pc) : bool :=
   match p, q with
@@ -296,20 +303,20 @@ Definition step (s : state) (a : action) : option state :=
       let th := threads s t in
       if is_call th && is_pc (t_pc th) PStart then
         Some (mkS (upd (threads s) t (mkT KCall PIdd (S (next_id s)) (t_payload th) (t_chan th) (t_ctx th) (t_ret th)))
-                  (pending s) (lock s) (wire s) (sent s) (S (next_id s)) (run s) (down s) (torn s) (senders s))
+                  (pending s) (lock s) (wire s) (sent s) (S (next_id s)) (run s) (down s) (torn s) (senders s) (closed s))
       else None
   | AReg t =>
       let th := threads s t in
       if is_call th && is_pc (t_pc th) PIdd then
         Some (mkS (upd (threads s) t (set_pc th PReady))
-                  ((t_id th, t) :: pending s) (lock s) (wire s) (sent s) (next_id s) (run s) (down s) (torn s) (senders s))
+                  ((t_id th, t) :: pending s) (lock s) (wire s) (sent s) (next_id s) (run s) (down s) (torn s) (senders s) (closed s))
       else None
   | ALock t =>
       let th := threads s t in
       match lock s with
       | None => if is_pc (t_pc th) PReady then
                   Some (mkS (upd (threads s) t (set_pc th PLocked))
-                            (pending s) (Some t) (wire s) (sent s) (next_id s) (run s) (down s) (torn s) (senders s))
+                            (pending s) (Some t) (wire s) (sent s) (next_id s) (run s) (down s) (torn s) (senders s) (closed s))
                 else None
       | Some _ => None
       end
@@ -319,21 +326,21 @@ Definition step (s : state) (a : action) : option state :=
         Some (mkS (upd (threads s) t
                     (mkT (t_kind th) (if is_call th then PSel else PDone) (t_id th) (t_payload th)
                          (t_chan th) (t_ctx th) (Some WriteFailed)))
-                  (pending s) None (wire s) (sent s) (next_id s) (run s) (down s) (torn s) (senders s))
+                  (pending s) None (wire s) (sent s) (next_id s) (run s) (down s) (torn s) (senders s) (closed s))
       else None
   | AHeader t =>
       let th := threads s t in
       if is_pc (t_pc th) PLocked && negb (down s) then
         Some (mkS (upd (threads s) t (set_pc th PHeader))
                   (pending s) (lock s) (wire s ++ frame_header (t_payload th)) (sent s) (next_id s) (run s)
-                  (down s) (torn s) (senders s))
+                  (down s) (torn s) (senders s) (closed s))
       else None
   | ABody t =>
       let th := threads s t in
       if is_pc (t_pc th) PHeader && negb (down s) then
         Some (mkS (upd (threads s) t (set_pc th PBody))
                   (pending s) (lock s) (wire s ++ t_payload th) (sent s ++ [t_payload th]) (next_id s) (run s)
-                  (down s) (torn s) (senders s ++ [t]))
+                  (down s) (torn s) (senders s ++ [t]) (closed s))
       else None
   | AHeaderFail t k =>
       let th := threads s t in
@@ -341,7 +348,7 @@ Definition step (s : state) (a : action) : option state :=
         let got := firstn k (frame_header (t_payload th)) in   (* a connection that is down takes nothing *)
         Some (mkS (upd (threads s) t (failed th))
                   (pending s) None (if down s then wire s else wire s ++ got) (sent s) (next_id s) (run s)
-                  true (if down s then torn s else got) (senders s))
+                  true (if down s then torn s else got) (senders s) (closed s))
       else None
   | ABodyFail t k =>
       let th := threads s t in
@@ -349,7 +356,7 @@ Definition step (s : state) (a : action) : option state :=
         let got := firstn k (t_payload th) in
         Some (mkS (upd (threads s) t (failed th))
                   (pending s) None (if down s then wire s else wire s ++ got) (sent s) (next_id s) (run s)
-                  true (if down s then torn s else frame_header (t_payload th) ++ got) (senders s))
+                  true (if down s then torn s else frame_header (t_payload th) ++ got) (senders s) (closed s))
       else None
   | AUnlock t =>
       let th := threads s t in
@@ -357,7 +364,7 @@ Definition step (s : state) (a : action) : option state :=
         Some (mkS (upd (threads s) t
                     (if is_call th then set_pc th PWait
                      else mkT (t_kind th) PDone (t_id th) (t_payload th) (t_chan th) (t_ctx th) (Some Sent)))
-                  (pending s) None (wire s) (sent s) (next_id s) (run s) (down s) (torn s) (senders s))
+                  (pending s) None (wire s) (sent s) (next_id s) (run s) (down s) (torn s) (senders s) (closed s))
       else None
   | ATake t =>
       let th := threads s t in
@@ -379,15 +386,16 @@ Definition step (s : state) (a : action) : option state :=
       if is_pc (t_pc th) PSel then
         Some (mkS (upd (threads s) t (set_pc th PDone))
                   (delete (t_id th) (pending s)) (lock s) (wire s) (sent s) (next_id s) (run s)
-                  (down s) (torn s) (senders s))
+                  (down s) (torn s) (senders s) (closed s))
       else None
   | ARead r =>
       match run s with
       | Some _ => None                                      (* the loop is busy sending *)
       | None =>
+          if closed s then None else                        (* the loop has returned *)
           match lookup (fst r) (pending s) with
           | Some t => Some (mkS (threads s) (pending s) (lock s) (wire s) (sent s) (next_id s) (Some (r, t))
-                                (down s) (torn s) (senders s))
+                                (down s) (torn s) (senders s) (closed s))
           | None => Some s                                  (* nobody waits for this id: dropped *)
           end
       end
@@ -398,10 +406,18 @@ Definition step (s : state) (a : action) : option state :=
           match t_chan th with
           | None => Some (mkS (upd (threads s) t
                           (mkT (t_kind th) (t_pc th) (t_id th) (t_payload th) (Some r) (t_ctx th) (t_ret th)))
-                        (pending s) (lock s) (wire s) (sent s) (next_id s) None (down s) (torn s) (senders s))
+                        (pending s) (lock s) (wire s) (sent s) (next_id s) None (down s) (torn s) (senders s) (closed s))
           | Some _ => None                                  (* channel full: the send blocks *)
           end
       | None => None
+      end
+  | AEof =>
+      match run s with
+      | Some _ => None                                      (* the loop is busy sending *)
+      | None =>
+          if closed s then None else
+          Some (mkS (threads s) (pending s) (lock s) (wire s) (sent s) (next_id s) None (down s) (torn s)
+                    (senders s) true)
       end
   end.
 
